@@ -150,7 +150,7 @@ const (
 func dangerous(count uint64) bool { return count > dangerLo && count < dangerHi }
 
 // boundary values for length prefixes / counts.
-var boundaryLens = []uint64{0, 1, 0xFC, 0xFD, 0xFE, 0xFF, 0x100, 0xFFFF, 0x10000, 0xFFFFFFFF, 0x100000000, 1 << 46, 1 << 56, 1 << 63, ^uint64(0)}
+var boundaryLens = []uint64{0, 1, 0xFC, 0xFD, 0xFE, 0xFF, 0x100, 0xFFFF, 0x10000, 0x1FFFFF, 0x200000, 0x2000000, 0xFFFFFFFF, 0x100000000, 1 << 46, 1 << 56, 1 << 63, ^uint64(0)}
 
 // hugeCounts are count values that are safe to feed to a decoder that pre-allocates.
 var safeCorruptCounts = []uint64{0, 1, 0xFD, 0xFFFF, 0x10000, 1 << 46, 1 << 56, 1 << 63, ^uint64(0)}
